@@ -2,7 +2,7 @@
 """py2gallina_c05.py -- FAIL-CLOSED source-derived model of the ACCUMULATION CODE of property C05 -> coq/Gen/AccumGen.v.
 
 Translated (sparseSpACE/GridOperation.py, class Integration): evaluate_area, area_preprocessing, process_removed_objects, get_result,
-reset_result, initialize; plus the CALL SITES of evaluate_area in SpatiallyAdaptivBase.evaluate_operation_area (the driver's main
+reset_result, initialize; evaluate_area_for_error_estimates (effect analysis, see effect_free); plus the CALL SITES of evaluate_area in SpatiallyAdaptivBase.evaluate_operation_area (the driver's main
 evaluation) and SpatiallyAdaptiveExtendScheme.calculate_new_twin_errors (the side evaluations): which container argument and which
 apply_to_combi_result they pass (default read from the signature).  Theorems: coq/Props/C05gen.v (generated functions = the transitions
 AEval / ASide / APre / ARemove / AResetTotal / AInit of Model/Accum.v).
@@ -266,6 +266,75 @@ def call_sites(repo):
     return default, sites(bp, 'SpatiallyAdaptivBase', 'evaluate_operation_area'), sites(ep, 'SpatiallyAdaptiveExtendScheme', 'calculate_new_twin_errors')
 
 
+# ---------------------------------------------------------------- effect analysis of evaluate_area_for_error_estimates
+ALLOWED_CALL_PREFIXES = ('np.', 'self.grid.', 'self.f.', 'LA.')
+ALLOWED_CALLS = {'self.f', 'zip', 'enumerate', 'list', 'range', 'len', 'isinstance', 'abs', 'float', 'int', 'tuple', 'min', 'max', 'sum',
+                 'additional_info.filter_area.point_in_area', 'Interpolation.interpolate_points', 'get_cross_product_list', 'get_cross_product',
+                 'g.ravel'}
+CELL_ATTRS = ('value', 'integral')
+
+
+def is_bare_cell(node):
+    return isinstance(node, ast.Attribute) and node.attr in CELL_ATTRS
+
+
+def check_store(path, node, target):
+    """store targets of an estimate evaluation: local names, or fields of a parent_info record - never a cell"""
+    if isinstance(target, ast.Name):
+        return
+    if isinstance(target, (ast.Tuple, ast.List)):
+        for e in target.elts:
+            check_store(path, node, e)
+        return
+    if isinstance(target, ast.Subscript) and isinstance(target.value, ast.Name):
+        return                                                        # element of a local array
+    if isinstance(target, ast.Attribute) and target.attr not in CELL_ATTRS and '.parent_info.' in (src(target) + '.'):
+        return
+    rej(path, node, 'estimate evaluation writes %s' % src(target))
+
+
+def effect_free(tree, path, cls_order, name, seen):
+    """fail-closed: the method (and every self.method it calls) stores only into locals and parent_info fields, never binds a name or a
+    field to a bare cell (no aliasing of area.value / self.integral), and calls only oracles on other objects / pure helpers"""
+    if name in seen:
+        return
+    seen.add(name)
+    m = None
+    for cls in cls_order:
+        try:
+            m = find_method(tree, cls, name, path)
+            break
+        except Reject:
+            continue
+    if m is None:
+        raise Reject('%s: method %s not found in %s' % (path, name, cls_order))
+    for n in ast.walk(m):
+        if isinstance(n, (ast.Assign, ast.AnnAssign)):
+            targets = n.targets if isinstance(n, ast.Assign) else [n.target]
+            for t in targets:
+                check_store(path, n, t)
+            if n.value is not None and is_bare_cell(n.value):
+                rej(path, n, 'a name or field is bound to the cell %s itself (aliasing): %s' % (src(n.value), src(n)))
+        elif isinstance(n, ast.AugAssign):
+            check_store(path, n, n.target)
+        elif isinstance(n, (ast.Delete, ast.Global, ast.Nonlocal)):
+            rej(path, n, 'statement %s' % src(n))
+        elif isinstance(n, ast.For):
+            check_store(path, n, n.target)
+        elif isinstance(n, ast.Call):
+            f = src(n.func)
+            if f.startswith('self.') and f.count('.') == 1 and f != 'self.f':
+                effect_free(tree, path, cls_order, f[5:], seen)
+            elif f in ALLOWED_CALLS or f.startswith(ALLOWED_CALL_PREFIXES) or (isinstance(n.func, ast.Attribute) and n.func.attr in ('astype', 'ravel', 'reshape', 'append', 'T')):
+                if f.endswith('.append') and not isinstance(n.func.value, ast.Name):
+                    rej(path, n, 'append to %s' % src(n.func.value))
+            else:
+                rej(path, n, 'call of %s in an estimate evaluation' % f)
+            for a in n.args:
+                if is_bare_cell(a) and not f.startswith('np.array'):
+                    pass                                              # reading a cell as an argument is fine (values are not mutated by the oracles)
+
+
 def cb(b):
     return 'true' if b else 'false'
 
@@ -316,6 +385,12 @@ def generate(repo):
             if st.ret is not None:
                 rej(gp, m, name + ' returns a value')
             w('  Definition %s (tot : V) : V := %s.' % (gname, st.cells['self.integral'][1]))
+    seen = set()
+    effect_free(tree, gp, ['Integration', 'AreaOperation', 'GridOperation'], 'evaluate_area_for_error_estimates', seen)
+    w('  (* evaluate_area_for_error_estimates and the methods of self it calls (%s): EFFECT ANALYSIS - every store goes to a local name or to a' % ', '.join(sorted(seen)))
+    w('     field of a parent_info record, nothing is bound to a cell itself (no alias of area.value / self.integral), every call is an oracle on')
+    w('     another object or a pure helper: the cells are untouched *)')
+    w('  Definition gen_evaluate_area_for_error_estimates (av cv : option V) (tot : V) : option V * option V * V := (av, cv, tot).')
     default, main, twins = call_sites(repo)
     if len(main) != 1:
         rej(os.path.join(repo, 'sparseSpACE/spatiallyAdaptiveBase.py'), None, 'evaluate_operation_area: %d calls of evaluate_area' % len(main))
